@@ -25,9 +25,8 @@ logger = getSSELogger("sse_server")
 
 class ServicesManager:
     def __init__(self):
-        # The access to the service dictionary may have competition,
-        # so we need to introduce a lock to ensure the access to the dictionary is concurrent safe.
-        self._access_dict_lock = asyncio.Lock()
+        # sid -> the most recently connected service; it is only read and written without an intervening await,
+        # which is atomic on the event loop
         self._service_dict = {}
 
     async def create_service(self, sid: str, websocket: WebSocketServerProtocol):
@@ -37,8 +36,12 @@ class ServicesManager:
         # a new service created with the same sid just to send init or control messages will not affect the database.
         service = Service(sid, websocket)
 
-        if sid in self._service_dict:
-            prev_server = self._service_dict[sid]
+        # Register at once (no await between the lookup and the registration), so that a later connection waits for
+        # this one and, through it, for every earlier one: connections of one sid are served strictly one at a time.
+        prev_service = self._service_dict.get(sid)
+        self._service_dict[sid] = service
+
+        if prev_service is not None:
             reason = f"Service {short_sid} is already running, we need to wait for the previous connection to close..."
             logger.warning(reason)
             # In the previous practice, if the previous connection was not closed,
@@ -46,18 +49,19 @@ class ServicesManager:
             # So we need to send a control message to the client to tell it
             # to wait for the previous connection to close.
             service.send_message(MsgType.CONTROL, reason.encode('utf8'))
-            await prev_server.wait_closed()  # wait for the previous socket to close
+            await prev_service.wait_finished()  # wait until the previous connection has been served and closed
+            # the previous connection may have changed the durable state after this service object was created
+            service.reload_state()
 
-        async with self._access_dict_lock:
-            self._service_dict[sid] = service
-        clean_task = asyncio.create_task(self.clean_service_when_close_connection(sid, websocket))
+        clean_task = asyncio.create_task(self.clean_service_when_close_connection(sid, service))
         await service.start()  # run forever! do not use asyncio.create_task
         await clean_task
 
-    async def clean_service_when_close_connection(self, sid: str, websocket: WebSocketServerProtocol):
-        await websocket.wait_closed()
-        async with self._access_dict_lock:
-            await asyncio.sleep(1)
-            self._service_dict[sid].close_service()
+    async def clean_service_when_close_connection(self, sid: str, service: Service):
+        await service.wait_closed()
+        service.close_service()
+        service.set_finished()
+        await asyncio.sleep(1)
+        if self._service_dict.get(sid) is service:  # a later connection may have taken over the entry
             del self._service_dict[sid]
         logger.info(f"Clean service {shorten_sid(sid)} successfully.")
